@@ -2,6 +2,7 @@
 from __future__ import annotations
 
 import ast
+import re
 from typing import Dict, List, Optional, Set, Tuple
 
 from engine import AnalysisError
@@ -10,7 +11,7 @@ from engine.dataflow import ReachingDefs, target_names, assigned_value
 from engine.srcmodel import walk_shallow, norm, parent, set_parents
 from engine.util import call_name, contains, get_method, in_body, fstring_template
 from ._c01_util import (bound_by_inner_scope, loads, load_ids, strip_wrappers, bounded_paths, branch_outcome,
-                        membership_facts, read_reserved, literal_pieces, alias_root, list_shapes, LVal, Scalar, Delegate)
+                        membership_facts, read_reserved, literal_pieces, alias_root, string_collection, list_shapes, LVal, Scalar, Delegate)
 
 PROPERTY = "C01"
 IR = "pyrates/ir/circuit.py"
@@ -560,9 +561,10 @@ def r3_grouping_key_determines_scalar_fields(ctx, rid):
         # --- fields requested at this call site
         bound = _bind_args(prod, call)
         fields_arg = bound.get(pm["fields_param"])
-        if not isinstance(fields_arg, (ast.List, ast.Tuple)) or not all(isinstance(e, ast.Constant) for e in fields_arg.elts):
-            raise AnalysisError(f"{rid}: {caller.qual}: field list handed to {prod.name} is not a literal list")
-        fields = [e.value for e in fields_arg.elts]
+        fc = string_collection(ctx, caller, fields_arg) if fields_arg is not None else None
+        if fc is None:
+            raise AnalysisError(f"{rid}: {caller.qual}: field list handed to {prod.name} is not a constant list of field names")
+        fields = list(fc[0])
         # --- pre-grouping by the caller: records come from `for _, recs in X.items()` with X = _sort_edges(.., attr)
         pre_attrs = _pregrouping_attrs(ctx, caller, bound, prod)
         # --- where does the result go?
@@ -580,10 +582,15 @@ def r3_grouping_key_determines_scalar_fields(ctx, rid):
         for cons, pname in consumers:
             if pname is None:
                 raise AnalysisError(f"{rid}: cannot map the grouped records to a parameter of {cons.qual}")
-            for gl in [l for l in walk_shallow(cons.node) if isinstance(l, ast.For)]:
+            # the consumer with its private helpers spliced in: the loop over the groups may have been extracted
+            cv = _view(ctx, cons)
+            for gl in [l for l in walk_shallow(cv.node) if isinstance(l, ast.For)]:
                 it = gl.iter
                 if not (isinstance(it, ast.Call) and isinstance(it.func, ast.Attribute) and it.func.attr in ("items", "values")
-                        and isinstance(it.func.value, ast.Name) and it.func.value.id == pname):
+                        and isinstance(it.func.value, ast.Name)):
+                    continue
+                src = alias_root(ctx, cv, it.func.value, wrappers=("dict",))
+                if not (isinstance(src.expr, ast.Name) and src.expr.id == pname and src.defstmt is None):
                     continue
                 tn = target_names(gl.target)
                 gvar = tn[-1]
@@ -594,7 +601,7 @@ def r3_grouping_key_determines_scalar_fields(ctx, rid):
                     par = parent(sub)
                     scalar = isinstance(par, ast.Attribute) and par.attr in STR_METHODS and isinstance(parent(par), ast.Call) \
                         and parent(par).func is par
-                    use_st = stmt_of(ctx.cfg(cons), sub)
+                    use_st = stmt_of(ctx.cfg(cv), sub)
                     if not scalar:
                         continue
                     n += 1
@@ -622,6 +629,21 @@ def r3_grouping_key_determines_scalar_fields(ctx, rid):
                                   f"the second connection is computed from the first connection's source variable",
                                   facts, label=label)
     ctx.require(n >= 1, f"{rid}: no scalar-consumed group field found (the consumer's `group['source_var'].split(...)` vanished)")
+
+
+def _view(ctx, f):
+    """f with its private helpers spliced in (engine.inline); f itself when nothing was inlined or inlining is not possible."""
+    from engine.inline import inlined
+    cache = ctx.__dict__.setdefault("_c01_views", {})
+    if f not in cache:
+        try:
+            v = inlined(ctx, f)
+            cache[f] = v if getattr(v, "inlined_helpers", None) else f
+        except AnalysisError:
+            raise
+        except Exception:
+            cache[f] = f
+    return cache[f]
 
 
 def _group_field_access(node: ast.AST, gvar: str) -> Optional[str]:
@@ -813,42 +835,72 @@ def r4_fresh_name_generator(ctx, rid):
                 name_tables |= r
             ctx.ok(rid, gen, ret, "every returned name is entered into the name table on its path", facts,
                    label="returned label is registered")
-    # ---- the table that is tested must be a superset of the graph's node names: every add_node of the class goes through it
+    # ---- the table that is tested must be a superset of the graph's node names: every add_node of the class goes through it.
+    # Each method is looked at with its private helpers spliced in (the generator itself stays a call), so a shared
+    # `store the node under this key` helper is judged in the context of the methods that call it.
+    from engine.inline import inlined
     n_add = 0
-    for c in ctx.repo.subclasses(cls):
-        for m in c.methods.values():
-            for call in [n for n in walk_shallow(m.node) if isinstance(n, ast.Call) and call_name(n) == "add_node"]:
-                recv = call.func.value if isinstance(call.func, ast.Attribute) else None
-                is_self = (isinstance(recv, ast.Name) and recv.id == m.self_name) or \
-                          (isinstance(recv, ast.Call) and isinstance(recv.func, ast.Name) and recv.func.id == "super")
-                if not is_self:
-                    continue
-                n_add += 1
-                key = call.args[0] if call.args else None
-                good = False
-                src = None
-                if isinstance(key, ast.Name):
-                    defs = ctx.rd(m).defs_reaching(key)
-                    vals = [assigned_value(d, key.id) for d in defs]
-                    good = bool(vals) and all(isinstance(v, ast.Call) and call_name(v) == gen.name
-                                              and gen in ctx.cg.resolve_call(m, v)[0] for v in vals)
-                    src = [norm(d) for d in defs]
-                st = stmt_of(ctx.cfg(m), call)
-                if good:
-                    # the node object and the returned label must carry the same name
-                    probs = _label_consistency(ctx, m, key.id)
-                    if probs:
-                        ctx.violation(rid, m, st, f"{m.qualname} adds the node under the generated label `{key.id}` but {probs}: "
-                                                  f"callers would address the node under a name that is not its graph key",
-                                      {"key_defs": src})
-                    else:
-                        ctx.ok(rid, m, st, f"the graph key, the node's name and the returned label are the value returned by "
-                                           f"{gen.name}", {"key_defs": src})
+    found: Dict[tuple, list] = {}           # source position of the add_node call -> [(method, view, call, owner?)]
+    methods = [m for c in ctx.repo.subclasses(cls) for m in c.methods.values()]
+    for m in methods:
+        try:
+            mv = inlined(ctx, m, keep=(gen.name,))
+            if not getattr(mv, "inlined_helpers", None):
+                mv = m
+        except AnalysisError:
+            raise
+        except Exception:
+            mv = m
+        for call in [n for n in walk_shallow(mv.node) if isinstance(n, ast.Call) and call_name(n) == "add_node"]:
+            recv = call.func.value if isinstance(call.func, ast.Attribute) else None
+            is_self = (isinstance(recv, ast.Name) and recv.id == m.self_name) or \
+                      (isinstance(recv, ast.Call) and isinstance(recv.func, ast.Name) and recv.func.id == "super")
+            if not is_self:
+                continue
+            own = m.node.lineno <= call.lineno <= (m.node.end_lineno or m.node.lineno)
+            found.setdefault((call.lineno, call.col_offset), []).append((m, mv, call, own))
+    for pos, ctxs in sorted(found.items()):
+        owner = next((x for x in ctxs if x[3]), None)
+        callers = [x for x in ctxs if not x[3]]
+        use = ctxs
+        if owner is not None and callers:
+            key0 = owner[2].args[0] if owner[2].args else None
+            key_is_param = isinstance(key0, ast.Name) and key0.id in owner[0].params and \
+                all(isinstance(d, ast.arguments) for d in ctx.rd(owner[1]).defs_reaching(key0))
+            sites = {c for c, _call in ctx.cg.call_sites_of(owner[0])} - {owner[0]}
+            if key_is_param and sites <= {x[0] for x in callers}:
+                use = callers           # the key is handed in: judged at every call site instead
+            else:
+                use = [owner]
+        for m, mv, call, _own in use:
+            n_add += 1
+            key = call.args[0] if call.args else None
+            good = False
+            src = None
+            if isinstance(key, ast.Name):
+                root = alias_root(ctx, mv, key, wrappers=())
+                defs = ctx.rd(mv).defs_reaching(root.expr) if isinstance(root.expr, ast.Name) else []
+                vals = [assigned_value(d, root.expr.id) for d in defs]
+                good = bool(vals) and all(isinstance(v, ast.Call) and call_name(v) == gen.name
+                                          and gen in ctx.cg.resolve_call(m, v)[0] for v in vals)
+                src = [_plain(norm(d)) for d in defs]
+            st = stmt_of(ctx.cfg(mv), call)
+            text = _plain(norm(st))
+            if good:
+                # the node object and the returned label must carry the same name
+                probs = _label_consistency(ctx, mv, key.id)
+                if probs:
+                    ctx.violation(rid, m, st, f"{m.qualname} adds the node under the generated label `{key.id}` but {probs}: "
+                                              f"callers would address the node under a name that is not its graph key",
+                                  {"key_defs": src}, label=text)
                 else:
-                    ctx.violation(rid, m, st,
-                                  f"`{norm(st)}` keys the graph node with `{ast.unparse(key) if key is not None else '?'}`, which is not "
-                                  f"the value returned by {gen.name}: a label that already exists silently replaces that node "
-                                  f"(MultiDiGraph.add_node overwrites)", {"key_defs": src})
+                    ctx.ok(rid, m, st, f"the graph key, the node's name and the returned label are the value returned by "
+                                       f"{gen.name}", {"key_defs": src}, label=text)
+            else:
+                ctx.violation(rid, m, st,
+                              f"`{text}` keys the graph node with `{ast.unparse(key) if key is not None else '?'}`, which is not "
+                              f"the value returned by {gen.name}: a label that already exists silently replaces that node "
+                              f"(MultiDiGraph.add_node overwrites)", {"key_defs": src}, label=text)
     ctx.require(n_add >= 2, f"{rid}: expected add_node calls in add_var and add_op of {cls.name}, found {n_add}")
     # ---- call sites that throw the returned label away must request a provably free name
     reserved = read_reserved(ctx, rid)      # effective vocabulary: empty when check_vname does not raise / is not applied
@@ -897,18 +949,28 @@ def r4_fresh_name_generator(ctx, rid):
 def _label_consistency(ctx, m, key: str) -> Optional[str]:
     """In add_var/add_op: the node object is constructed with name=<key> and the function returns <key> first."""
     probs = []
+    def is_key(e) -> bool:
+        if not isinstance(e, ast.Name):
+            return False
+        if e.id == key:
+            return True
+        r = alias_root(ctx, m, e, wrappers=())
+        return key in r.names or (isinstance(r.expr, ast.Name) and r.expr.id == key)
     ctor = [c for c in walk_shallow(m.node) if isinstance(c, ast.Call) and any(k.arg == "name" for k in c.keywords)]
     for c in ctor:
         nm = next(k.value for k in c.keywords if k.arg == "name")
-        if not (isinstance(nm, ast.Name) and nm.id == key):
-            probs.append(f"the node object is constructed with name={ast.unparse(nm)}")
+        if not is_key(nm):
+            probs.append(f"the node object is constructed with name={_plain(ast.unparse(nm))}")
     if not ctor:
         raise AnalysisError(f"{m.qual}: node object construction with name=... not found")
     for r in [n for n in walk_shallow(m.node) if isinstance(n, ast.Return)]:
         v = r.value
+        if isinstance(v, ast.Name):
+            root = alias_root(ctx, m, v, wrappers=())
+            v = root.value if root.value is not None else v
         first = v.elts[0] if isinstance(v, ast.Tuple) and v.elts else v
-        if not (isinstance(first, ast.Name) and first.id == key):
-            probs.append(f"it returns `{ast.unparse(first) if first is not None else None}` as the label")
+        if not is_key(first):
+            probs.append(f"it returns `{_plain(ast.unparse(first)) if first is not None else None}` as the label")
     return "; ".join(probs) if probs else None
 
 
@@ -1763,78 +1825,171 @@ def _store_root(t: ast.AST) -> Optional[Tuple[ast.Name, ast.AST]]:
     return None
 
 
-def r7_source_registration_accumulates(ctx, rid):
-    n = 0
-    for f in ctx.repo.all_functions([IR]):
-        tables = _inputs_table_names(ctx, f)
-        if not tables:
-            continue
-        cfg, rd = ctx.cfg(f), ctx.rd(f)
-        for st in [x for x in walk_shallow(f.node) if isinstance(x, ast.Assign)]:
-            for t in st.targets:
-                root = _store_root(t) if isinstance(t, ast.Subscript) else None
-                if root is None or root[0].id not in tables:
+def _outcome_leading_to(cfg, d, st) -> Optional[bool]:
+    """The outcome of the test of the dominating `if` d under which statement st can be reached without evaluating d again
+    (st in the body, in the else branch, or behind a branch that leaves early: `if k in T: continue / return`).  None when
+    both outcomes lead to st."""
+    def via(label):
+        return any(s is st or cfg.reachable_avoiding(s, st, lambda x: x is d) is not None for s in cfg.successors(d, label))
+    t, f_ = via("true"), via("false")
+    if t and not f_:
+        return True
+    if f_ and not t:
+        return False
+    return None
+
+
+_INLINE_SUFFIX = re.compile(r"__[A-Za-z_]\w*_\d+\b")
+
+
+def _plain(text: str) -> str:
+    """Text of a statement of an inlined view without the suffixes the inliner adds to helper locals."""
+    return _INLINE_SUFFIX.sub("", text)
+
+
+def _r7_stores(ctx, rid, f):
+    """Registration stores into an existing operator's input table found in function (or inlined view) f:
+    [dict(pos, st, kind, key, table, guard)] — guard is the statement that confines the store to `key not in table`
+    (None = unconfined; kind 'setdefault' never replaces an entry)."""
+    out = []
+    tables = _inputs_table_names(ctx, f)
+    if not tables:
+        return out
+    cfg, rd = ctx.cfg(f), ctx.rd(f)
+    for st in [x for x in walk_shallow(f.node) if isinstance(x, ast.Assign)]:
+        for t in st.targets:
+            root = _store_root(t) if isinstance(t, ast.Subscript) else None
+            if root is None or root[0].id not in tables:
+                continue
+            I, k = root
+            cfg_st = stmt_of(cfg, st)
+            if not all(any(d is b for b in tables[I.id]) for d in rd.defs_reaching_at(cfg_st, I.id)):
+                continue            # the name was re-bound to something else before this store
+            ktxt = ast.unparse(k)
+            absent = None
+            for d in cfg.dominators(cfg_st):
+                if not isinstance(d, ast.If) or d is cfg_st:
                     continue
-                I, k = root
-                cfg_st = stmt_of(cfg, st)
-                if not all(any(d is b for b in tables[I.id]) for d in rd.defs_reaching_at(cfg_st, I.id)):
-                    continue            # the name was re-bound to something else before this store
-                n += 1
-                ktxt = ast.unparse(k)
-                facts = {"table": norm(tables[I.id][0]), "key": ktxt, "store": norm(st)}
-                absent = None
-                for d in cfg.dominators(cfg_st):
-                    if not isinstance(d, ast.If) or d is cfg_st:
-                        continue
-                    if any(contains(b, st) for b in d.body):
-                        outcome = True
-                    elif any(contains(b, st) for b in d.orelse):
-                        outcome = False
-                    else:
-                        continue
-                    for name, table, is_member in membership_facts(d.test, outcome):
-                        if name == ktxt and table == I.id and not is_member:
-                            same = all(rd.defs_reaching_at(d, x) == rd.defs_reaching_at(cfg_st, x) for x in (ktxt, I.id))
-                            if same:
-                                absent = d
-                if absent is None:
-                    # `try: I[k]… except KeyError: I[k] = …` — the handler runs only when the entry is missing
-                    for h in [a for a in _anc(st) if isinstance(a, ast.ExceptHandler)]:
-                        t = parent(h)
-                        catches = [h.type] if not isinstance(h.type, ast.Tuple) else list(h.type.elts)
-                        if isinstance(t, ast.Try) and len(catches) == 1 and isinstance(catches[0], ast.Name) and catches[0].id == "KeyError":
-                            reads = [n for b in t.body for n in ast.walk(b) if isinstance(n, ast.Subscript) and isinstance(n.value, ast.Name)
-                                     and n.value.id == I.id and ast.unparse(n.slice) == ktxt and isinstance(n.ctx, ast.Load)]
-                            other = [n for b in t.body for n in ast.walk(b) if isinstance(n, ast.Subscript) and n not in reads
-                                     and not any(n is r or contains(r, n) or contains(n, r) for r in reads)]
-                            if reads and not other:
-                                absent = t
-                if absent is None:
-                    undecided = [d for d in cfg.dominators(cfg_st) if isinstance(d, (ast.If, ast.While)) and d is not cfg_st
-                                 and {ktxt, I.id} <= load_ids(d.test) | {ast.unparse(n) for n in ast.walk(d.test) if isinstance(n, ast.expr)}
-                                 and not membership_facts(d.test, True) and not membership_facts(d.test, False)]
-                    if undecided:
-                        raise AnalysisError(f"{rid}: {f.qual}: `{norm(st)}` is guarded by `{norm(undecided[0])}`, a test of `{ktxt}` against "
-                                            f"`{I.id}` in an unrecognised form")
-                if absent is not None:
-                    facts["guard"] = norm(absent)
-                    ctx.ok(rid, f, st, f"`{norm(st)}` creates the entry only on the branch where `{ktxt}` is not yet in the operator's "
-                                       f"input table (`{norm(absent)}`); existing sources are kept", facts)
-                else:
-                    ctx.violation(rid, f, st,
-                                  f"`{norm(st)}` replaces the entry of input variable `{ktxt}` in the target operator's input table "
-                                  f"(`{norm(tables[I.id][0])}`) without being confined to the branch where that variable has no entry yet: "
-                                  f"sources registered earlier (operators of the same node whose output feeds `{ktxt}`, other edge "
-                                  f"operators) are dropped, so the input is no longer the sum of all its incoming connections", facts)
-        # `I.setdefault(k, {...})` never replaces an entry: counted as a registration that keeps existing sources
-        for c in [x for x in walk_shallow(f.node) if isinstance(x, ast.Call)]:
-            if isinstance(c.func, ast.Attribute) and c.func.attr == "setdefault" and isinstance(c.func.value, ast.Name) \
-                    and c.func.value.id in tables and c.args:
-                cst = stmt_of(cfg, c)
-                if all(any(d is b for b in tables[c.func.value.id]) for d in rd.defs_reaching_at(cst, c.func.value.id)):
-                    n += 1
-                    ctx.ok(rid, f, cst, f"`{ast.unparse(c)}` creates the entry of `{ast.unparse(c.args[0])}` only when it is absent "
-                                        f"(dict.setdefault); existing sources are kept", {"store": norm(cst)})
+                outcome = _outcome_leading_to(cfg, d, cfg_st)
+                if outcome is None:
+                    continue
+                for name, table, is_member in membership_facts(d.test, outcome):
+                    if name == ktxt and table == I.id and not is_member:
+                        same = all(rd.defs_reaching_at(d, x) == rd.defs_reaching_at(cfg_st, x) for x in (ktxt, I.id))
+                        if same:
+                            absent = d
+            if absent is None:
+                # `try: I[k]… except KeyError: I[k] = …` — the handler runs only when the entry is missing
+                for h in [a for a in _anc(st) if isinstance(a, ast.ExceptHandler)]:
+                    t2 = parent(h)
+                    catches = [h.type] if not isinstance(h.type, ast.Tuple) else list(h.type.elts)
+                    if isinstance(t2, ast.Try) and len(catches) == 1 and isinstance(catches[0], ast.Name) and catches[0].id == "KeyError":
+                        reads = [n for b in t2.body for n in ast.walk(b) if isinstance(n, ast.Subscript) and isinstance(n.value, ast.Name)
+                                 and n.value.id == I.id and ast.unparse(n.slice) == ktxt and isinstance(n.ctx, ast.Load)]
+                        other = [n for b in t2.body for n in ast.walk(b) if isinstance(n, ast.Subscript) and n not in reads
+                                 and not any(n is r or contains(r, n) or contains(n, r) for r in reads)]
+                        if reads and not other:
+                            absent = t2
+            if absent is None:
+                undecided = [d for d in cfg.dominators(cfg_st) if isinstance(d, (ast.If, ast.While)) and d is not cfg_st
+                             and {ktxt, I.id} <= load_ids(d.test) | {ast.unparse(n) for n in ast.walk(d.test) if isinstance(n, ast.expr)}
+                             and not membership_facts(d.test, True) and not membership_facts(d.test, False)]
+                if undecided:
+                    raise AnalysisError(f"{rid}: {f.qual}: `{_plain(norm(st))}` is guarded by `{_plain(norm(undecided[0]))}`, a test of "
+                                        f"`{_plain(ktxt)}` against `{_plain(I.id)}` in an unrecognised form")
+            out.append(dict(pos=(st.lineno, st.col_offset), st=st, kind="store", key=ktxt, table=tables[I.id][0], guard=absent))
+    # `I.setdefault(k, {...})` never replaces an entry: counted as a registration that keeps existing sources
+    for c in [x for x in walk_shallow(f.node) if isinstance(x, ast.Call)]:
+        if isinstance(c.func, ast.Attribute) and c.func.attr == "setdefault" and isinstance(c.func.value, ast.Name) \
+                and c.func.value.id in tables and c.args:
+            cst = stmt_of(cfg, c)
+            if all(any(d is b for b in tables[c.func.value.id]) for d in rd.defs_reaching_at(cst, c.func.value.id)):
+                out.append(dict(pos=(cst.lineno, cst.col_offset), st=cst, kind="setdefault", key=ast.unparse(c.args[0]),
+                                table=tables[c.func.value.id][0], guard=cst, call=c))
+    return out
+
+
+def r7_source_registration_accumulates(ctx, rid):
+    """Every store is judged in the function that contains it; when it is not confined there (or its table is handed in as a
+    parameter), it is judged once more in every caller with the private helpers spliced in (engine.inline), so that a guard and
+    a store that a refactoring put into different functions are still seen together."""
+    from engine.inline import inlined
+    funcs = ctx.repo.all_functions([IR])
+
+    def owner_of(pos):
+        best = None
+        for g in funcs:
+            if g.node.lineno <= pos[0] <= (g.node.end_lineno or g.node.lineno):
+                if best is None or g.node.lineno >= best.node.lineno:
+                    best = g
+        return best
+    views: Dict[object, object] = {}
+
+    def view(g):
+        if g not in views:
+            try:
+                v = inlined(ctx, g)
+                views[g] = v if getattr(v, "inlined_helpers", None) else None
+            except AnalysisError:
+                raise
+            except Exception:
+                views[g] = None
+        return views[g]
+    own: Dict[tuple, tuple] = {}            # pos -> (function, record)
+    for f in funcs:
+        for r in _r7_stores(ctx, rid, f):
+            own[r["pos"]] = (f, r)
+    # stores that only become visible with helpers spliced in (the table is a parameter of the helper)
+    in_callers: Dict[tuple, list] = {}
+    for g in funcs:
+        gv = view(g)
+        if gv is None:
+            continue
+        for r in _r7_stores(ctx, rid, gv):
+            o = owner_of(r["pos"])
+            if o is not None and o is not g:
+                in_callers.setdefault(r["pos"], []).append((g, r, o))
+    n = 0
+    for pos in sorted(set(own) | set(in_callers)):
+        if pos in own:
+            f, r = own[pos]
+        else:
+            _g, r, f = in_callers[pos][0]
+        contexts = in_callers.get(pos, [])
+        sites = {c for c, _call in ctx.cg.call_sites_of(f)} - {f}
+        st = r["st"]
+        text, ktxt = _plain(norm(st)), _plain(r["key"])
+        facts = {"table": _plain(norm(r["table"])), "key": ktxt, "store": text,
+                 "judged_in": [f.qualname] if pos in own else sorted({g.qualname for g, _r, _o in contexts})}
+        n += max(1, len(sites))
+        if r["kind"] == "setdefault" and pos in own:
+            ctx.ok(rid, f, st, f"`{_plain(ast.unparse(r['call']))}` creates the entry of `{ktxt}` only when it is absent "
+                               f"(dict.setdefault); existing sources are kept", {"store": text}, label=text)
+            continue
+        guard = r["guard"] if pos in own else None
+        if guard is None and contexts:
+            # confined in every caller?  (all callers of the containing function must have been looked at)
+            seen_callers = {g for g, _r, _o in contexts}
+            if all(rr["guard"] is not None for _g, rr, _o in contexts) and sites <= seen_callers:
+                guard = contexts[0][1]["guard"]
+                facts["judged_in"] = sorted(g.qualname for g in seen_callers)
+        if guard is not None:
+            facts["guard"] = _plain(norm(guard))
+            ctx.ok(rid, f, st, f"`{text}` creates the entry only on the branch where `{ktxt}` is not yet in the operator's "
+                               f"input table (`{facts['guard']}`); existing sources are kept", facts, label=text)
+            if len(sites) >= 2:
+                # a shared registration helper: one obligation per function that registers sources through it
+                for c in sorted(sites, key=lambda x: x.qual):
+                    call = next(cl for cc, cl in ctx.cg.call_sites_of(f) if cc is c)
+                    ctx.ok(rid, c, stmt_of(ctx.cfg(c), call), f"registers the sources of `{ktxt}` through {f.qualname}, whose store "
+                                                               f"`{text}` is confined to the branch where the variable has no entry yet",
+                           facts, label=f"registration `{text}` through a shared helper")
+        else:
+            ctx.violation(rid, f, st,
+                          f"`{text}` replaces the entry of input variable `{ktxt}` in the target operator's input table "
+                          f"(`{facts['table']}`) without being confined to the branch where that variable has no entry yet: "
+                          f"sources registered earlier (operators of the same node whose output feeds `{ktxt}`, other edge "
+                          f"operators) are dropped, so the input is no longer the sum of all its incoming connections", facts, label=text)
     ctx.require(n >= 1, f"{rid}: no registration store into an operator's input table found in {IR}")
 
 
